@@ -27,12 +27,13 @@ def plan(tier):
     base = {"case_time_limit": 240,
             "required_classes": ["criteria:fixed", "criteria:threshold", "criteria:both", "per-bond-limits",
                                  "temp_m_trunc:scalar", "temp_m_trunc:list", "degenerate-spectrum", "rank-below-limit",
-                                 "threshold>=0.5", "sweep:to_right", "sweep:to_left", "ret_s", "sector:zero-with-signed-labels"],
-            "required_counters": {"oracle": 300, "bounds_checked": 200}}
+                                 "threshold>=0.5", "threshold:next-to-a-singular-value", "both:limit-binds", "both:threshold-binds",
+                                 "both:count-depends-on-the-normalisation", "sweep:to_right", "sweep:to_left", "ret_s", "sector:zero-with-signed-labels"],
+            "required_counters": {"oracle": 300, "bounds_checked": 200, "kept_counts_checked": 100}}
     if tier == "quick":
-        base.update({"ncases": 320, "min_nontrivial": 60})
+        base.update({"ncases": 640, "min_nontrivial": 60})
     else:
-        base.update({"ncases": 60000, "min_nontrivial": 20000, "required_counters": {"oracle": 80000, "bounds_checked": 40000}})
+        base.update({"ncases": 60000, "min_nontrivial": 20000, "required_counters": {"oracle": 80000, "bounds_checked": 40000, "kept_counts_checked": 20000}})
     return base
 
 
@@ -144,7 +145,8 @@ def run_case(ctx):
         mps.scale(1.0 / nrm, inplace=True)
     if rng.random() < 0.2:
         mps.coeff = mps.coeff * float(rng.choice([2.0, 0.3]))
-    ctx.cls("sweep:to_right" if mps.to_right else "sweep:to_left")
+    sweep_to_right = bool(mps.to_right)
+    ctx.cls("sweep:to_right" if sweep_to_right else "sweep:to_left")
     psi = states.dense_of(mps)
     coeff = mps.coeff
     norm0 = float(np.linalg.norm(psi))
@@ -174,7 +176,7 @@ def run_case(ctx):
 
     # ---- the truncation target ----------------------------------------------------------------------
     limits = None          # per-bond upper limits (len n+1) or None
-    kind = int(rng.integers(0, 7))
+    kind = int(rng.choice(7, p=[0.13, 0.13, 0.13, 0.13, 0.13, 0.22, 0.13]))
     tgt = {}
     kwargs = {}
     maxb = max(max(ranks), 1)     # limits are drawn around the true ranks so that most targets really truncate
@@ -206,6 +208,31 @@ def run_case(ctx):
         tgt = {"temp_m_trunc": arr.tolist()}
     elif kind in (4, 5):
         t = float(rng.choice([0.5, 0.9, 0.3, 0.1])) if rng.random() < 0.4 else float(10 ** rng.uniform(-6, -0.05))
+        M = int(rng.integers(1, max(2, maxb + 2)))
+        if n > 1 and rng.random() < 0.4:
+            # boundary class: the threshold sits a little above or below one of the normalised singular values of a cut
+            c0 = int(rng.integers(1, n))
+            ns0 = spectra[c0] / max(float(np.linalg.norm(spectra[c0])), 1e-300)
+            i0 = int(rng.integers(0, max(1, min(int(ranks[c0]), M + 1))))
+            f = float(10 ** rng.uniform(-2, -0.4))
+            tb = float(ns0[i0] * (1 + f if rng.random() < 0.6 else 1 - f))
+            if 1e-6 < tb < 0.95:
+                t = tb
+                ctx.cls("threshold:next-to-a-singular-value")
+        if kind == 5 and n > 1 and rng.random() < 0.5:
+            # both criteria active on the first bond of the sweep: the limit cuts off sizeable weight and the threshold falls
+            # between a singular value normalised by the whole spectrum and the same value normalised by the kept part
+            cand = [c for c in range(1, n) if ranks[c] >= 3]
+            c0 = int(rng.choice(cand)) if cand else 1
+            sp = spectra[c0]
+            r0 = int(ranks[c0])
+            if r0 >= 3:
+                M = int(rng.integers(2, r0))
+                i0 = int(rng.integers(0, M))
+                lo = float(sp[i0] / np.linalg.norm(sp))
+                hi = float(sp[i0] / np.linalg.norm(sp[:M]))
+                if hi > lo * (1 + 1e-4) and 1e-6 < lo and np.sqrt(lo * hi) < 0.95:
+                    t = float(np.sqrt(lo * hi))
         if t >= 0.5:
             ctx.cls("threshold>=0.5")
         if kind == 4:
@@ -213,7 +240,6 @@ def run_case(ctx):
             ctx.cls("criteria:threshold")
             tgt = {"threshold": t}
         else:
-            M = int(rng.integers(1, max(2, maxb + 2)))
             mps.compress_config = CompressConfig(CompressCriteria.both, threshold=t, max_bonddim=M)
             limits = [M] * (n + 1)
             ctx.cls("criteria:both")
@@ -270,6 +296,45 @@ def run_case(ctx):
         if all(l >= r for l, r in zip(limits[1:-1], ranks[1:-1])):
             ctx.check(all(a >= r for a, r in zip(after[1:-1], ranks[1:-1])), "bond-below-schmidt-rank-although-limit-allows-it|" + list(tgt)[0],
                       after=after, ranks=ranks, limits=limits)
+    if list(tgt)[0] in ("threshold", "both"):
+        # the documented kept count, cut by cut: sequential Schmidt truncation of the dense vector in the sweep order, keeping
+        # the normalised singular values above the threshold (at least one), for `both` at most the fixed limit as well
+        t = tgt["threshold"] if "threshold" in tgt else tgt["both"][0]
+        cuts = list(range(1, n)) if sweep_to_right else list(range(n - 1, 0, -1))
+        vec = np.array(psi, copy=True)
+        for c in cuts:
+            mat = vec.reshape(int(np.prod(dims[:c])), int(np.prod(dims[c:])))
+            u, sv, vh = np.linalg.svd(mat, full_matrices=False)
+            nrm = float(np.linalg.norm(sv))
+            if nrm <= 1e-300:
+                break
+            ns = sv / nrm
+            if np.any(np.abs(ns - t) <= 1e-7):
+                ctx.cls("kept-count:ambiguous-at-threshold")
+                break
+            k = max(int(np.sum(ns > t)), 1)
+            if "both" in tgt:
+                k2 = min(k, int(limits[c]))
+                if k2 < k and k2 < len(sv) and abs(sv[k2 - 1] - sv[k2]) <= 1e-7 * sv[0]:
+                    ctx.cls("kept-count:limit-inside-degenerate-multiplet")
+                    break
+                mk = int(limits[c])
+                if mk < len(sv):
+                    alt = int(np.sum(sv[:mk] / max(float(np.linalg.norm(sv[:mk])), 1e-300) > t))
+                    if max(alt, 1) != k2:
+                        # normalising by the kept part instead of the whole spectrum would give another count
+                        ctx.cls("both:count-depends-on-the-normalisation")
+                if k2 < k:
+                    ctx.cls("both:limit-binds")
+                else:
+                    ctx.cls("both:threshold-binds")
+                k = k2
+            ctx.count("kept_counts_checked")
+            if not ctx.check(after[c] == k, "kept-count-differs-from-documented-criterion|" + list(tgt)[0], cut=c, kept=after[c],
+                             documented=k, threshold=t, normalised_singular_values=ns[:8].tolist(), after=after,
+                             limits=limits):
+                break
+            vec = ((u[:, :k] * sv[:k]) @ vh[:k]).reshape(vec.shape)
     ctx.check(np.array_equal(np.asarray(mps.qntot), qntot_before), "compress|qntot-changed", before=qntot_before, after=mps.qntot)
     if upper > 1e-12 * max(norm0, 1e-300):
         ctx.nontrivial(desc)
